@@ -97,3 +97,11 @@ def generate(rng, n, tier, pid):
 
 
 shrink_candidates = fam_reader.shrink_candidates
+
+
+def semantic(case, obs, is_model):
+    """Ranges and bytes of the records, stream-stays-ended and last_sentinel_offset -- not slice pointers, anchors, cache."""
+    c = canon(obs, is_model)
+    if c == [[99]]:
+        return c
+    return [[[r[0], r[1][0][0], r[1][0][2], r[1][2]] for r in c[0]], c[1]]
